@@ -451,9 +451,10 @@ def fite(c, a, b):
     return XR(num, den, b_ite(c, a.nan, b.nan), b_ite(c, a.pinf, b.pinf), b_ite(c, a.ninf, b.ninf))
 
 
-def fsame(a, b, tol=0.0):
+def fsame(a, b, tol=0.0, stol=0.0):
     """specification equality of two doubles: both NaN, or same infinity, or equal finite values.
-    Concretely a relative/absolute tolerance `tol` is allowed (rounding of the real kernel)."""
+    Concretely a relative/absolute tolerance `tol` is allowed (rounding of the real kernel); symbolically the
+    comparison is exact unless `stol` > 0 (used where a path folds concrete float arithmetic, which rounds)."""
     if is_conc(a) and is_conc(b):
         if fisnan(a) or fisnan(b):
             return fisnan(a) and fisnan(b)
@@ -462,8 +463,13 @@ def fsame(a, b, tol=0.0):
         return abs(a - b) <= tol * max(1.0, abs(a), abs(b))
     a = lift(a)
     b = lift(b)
+    if stol > 0 and a.den is None and b.den is None:
+        t = rv(Fraction(stol)) * (1 + z3.If(a.num >= 0, a.num, -a.num))
+        close = z3.And(a.num - b.num <= t, b.num - a.num <= t)
+    else:
+        close = _cmp_fin('eq', a, b)
     return b_and(b_eq(a.nan, b.nan), b_eq(a.pinf, b.pinf), b_eq(a.ninf, b.ninf),
-                 b_implies(b_and(a.fin(), b.fin()), _cmp_fin('eq', a, b)))
+                 b_implies(b_and(a.fin(), b.fin()), close))
 
 
 def fmin(a, b):
